@@ -107,7 +107,10 @@ def impl_visit(node, handlers, c_ast, mode=0):
     mode 1: a base visitor class A (no visit_X of its own, or half of them) is used first on the same tree, by two instances; the
             events reported are those of an instance of the derived class B(A) that defines / overrides the handlers - what a
             visitor does must depend on its own class only, not on which other visitors ran before.
-    mode 2: the same instance visits the tree twice; the second traversal is reported."""
+    mode 2: the same instance visits the tree twice; the second traversal is reported.
+    mode 3: the visit_X methods REMOVE the node they are given from the list that holds it (a visitor that edits the tree while
+            walking it) before doing their work; every child that was there when its parent's traversal began is still visited once.
+    mode 4: the visitor class also has methods called visit_Node and visit_object: no node has such a class, they are never called."""
     events = []
 
     def mk(kind):
@@ -121,6 +124,40 @@ def impl_visit(node, handlers, c_ast, mode=0):
         events.append((type(n).__name__, "0"))
         c_ast.NodeVisitor.generic_visit(self, n)
     items = list(handlers.items())
+    if mode == 3:
+        holder = {}
+
+        def index(n):
+            for s_ in type(n).__slots__:
+                v = getattr(n, s_, None) if s_ not in ("coord", "__weakref__") else None
+                if isinstance(v, list):
+                    for e in v:
+                        if isinstance(e, c_ast.Node):
+                            holder[id(e)] = v
+            for _nm, ch in n.children():
+                index(ch)
+        index(node)
+
+        def mk3(kind):
+            def visit_X(self, n):
+                lst = holder.get(id(n))
+                if lst is not None and n in lst:
+                    lst.remove(n)
+                events.append((type(n).__name__, "1"))
+                if kind == 2:
+                    c_ast.NodeVisitor.generic_visit(self, n)
+            return visit_X
+        ns = {"visit_" + c: mk3(k) for c, k in items}
+        ns["generic_visit"] = generic_visit
+        type("V3", (c_ast.NodeVisitor,), ns)().visit(node)
+        return RS.join(US.join(e) for e in events)
+    if mode == 4:
+        def bogus(self, n):
+            events.append((type(n).__name__, "!"))
+        ns = {"visit_" + c: mk(k) for c, k in items}
+        ns.update({"generic_visit": generic_visit, "visit_Node": bogus, "visit_object": bogus})
+        type("V4", (c_ast.NodeVisitor,), ns)().visit(node)
+        return RS.join(US.join(e) for e in events)
     if mode == 1:
         half = items[: len(items) // 2]
         nsA = {"visit_" + c: mk(3 - k) for c, k in half}      # A handles half of the classes, the other way round
